@@ -5,6 +5,7 @@ package main
 import (
 	"fmt"
 	"go/types"
+	"strings"
 
 	"golang.org/x/tools/go/ssa"
 )
@@ -47,6 +48,8 @@ func callRT(fr *frame, fn *ssa.Function, args []value) (value, bool) {
 	switch fn.Name() {
 	case "Symbolic":
 		return true, true
+	case "Thorough":
+		return fr.i.thorough, true
 	case "U64":
 		return m.freshVar(strArg(args[0]), types.Uint64), true
 	case "U32":
@@ -92,6 +95,7 @@ func callRT(fr *frame, fn *ssa.Function, args []value) (value, bool) {
 		m.assert(false, strArg(args[0]))
 		return nil, true
 	case "Reach":
+		m.ensureFeasible()
 		m.reach = append(m.reach, strArg(args[0]))
 		return nil, true
 	case "Observe":
@@ -122,6 +126,17 @@ func callRT(fr *frame, fn *ssa.Function, args []value) (value, bool) {
 		return m.mkSym(u64Term(m, args[0]), types.Uint64), true
 	case "MapOrderNondet":
 		m.mapOrderNondet = args[0].(bool)
+		return nil, true
+	case "Summarize":
+		m.summarize[strArg(args[0])] = true
+		return nil, true
+	case "MapOrderFuncs":
+		m.mapOrderFuncs = nil
+		for _, f := range strings.Split(strArg(args[0]), ",") {
+			if f != "" {
+				m.mapOrderFuncs = append(m.mapOrderFuncs, f)
+			}
+		}
 		return nil, true
 	case "SchedNondet":
 		m.schedNondet = args[0].(bool)
